@@ -468,7 +468,10 @@ def evaluate(ext, case, options=None):
         for name, ext2, case2, opt2 in variants:
             key = (ext2, tuple(sorted(case2.items())), tuple(sorted((opt2 or {}).items(), key=str)))
             if key not in cache:
-                cache[key] = {(x[1], x[2]) for x in _evaluate_raw(ext2, case2, opt2) if x[0] == "fail"}
+                # three data seeds: a data-dependent failure (precision) must not make a feature look necessary by chance
+                cache[key] = set()
+                for ds in range(3):
+                    cache[key] |= {(x[1], x[2]) for x in _evaluate_raw(ext2, dict(case2, seed=case2["seed"] + ds), opt2) if x[0] == "fail"}
             if (check, clause) not in cache[key]:
                 feats.append(name)
         witness = saver + "".join(":" + f for f in feats)
@@ -493,40 +496,25 @@ def _work(job):
 
 # ------------------------------------------------------------------------------------------------------------------
 def _grid(tier, seed):
-    """ordered small-first so that the first witness of a key is a minimal one"""
-    jobs = []
-    if tier == "quick":
-        cases = []
-        for nf, na, cell in itertools.product([1, 2, 3], ATOMS, CELLS):
-            # quick: every (frames, atoms, cell) once with magnitude cycling through the four classes
-            mag = MAGS[(nf + ATOMS.index(na) + CELLIDX(cell)) % 4]
-            cases.append(dict(nf=nf, na=na, mag=mag, cell=cell, seed=seed))
-        for na, mag, cell in itertools.product([1, 10], MAGS, ["none", "ortho"]):  # plus every magnitude on both sides of the XTC threshold
-            c = dict(nf=2, na=na, mag=mag, cell=cell, seed=seed)
-            if c not in cases:
-                cases.append(c)
-        alias_cases = [c for c in cases if c["na"] in (1, 10) and c["nf"] in (1, 2)]
-    else:
-        cases = [dict(nf=nf, na=na, mag=mag, cell=cell, seed=seed) for nf, na, mag, cell in itertools.product(FRAMES, ATOMS, MAGS, CELLS)]
-        cases += [dict(nf=nf, na=na, mag="1", cell="varying-tri", seed=seed) for nf, na in itertools.product([2, 3], [1, 10])]
-        alias_cases = cases
+    """the full product in both tiers, ordered small-first so that the first witness of a key is a minimal one"""
+    cases = [dict(nf=nf, na=na, mag=mag, cell=cell, seed=seed) for nf, na, mag, cell in itertools.product(FRAMES, ATOMS, MAGS, CELLS)]
+    cases += [dict(nf=nf, na=na, mag="1", cell="varying-tri", seed=seed) for nf, na in itertools.product([2, 3], [1, 10])]
     cases.sort(key=lambda c: (c["nf"], c["na"], CELLIDX(c["cell"]), MAGIDX(c["mag"])))
-    for c in cases:
-        jobs.append([(e, c, None) for e in PRIMARY])
-    for c in sorted(alias_cases, key=lambda c: (c["nf"], c["na"], CELLIDX(c["cell"]), MAGIDX(c["mag"]))):
-        jobs.append([(e, c, None) for e in ALIASES])
+    jobs = [[(e, c, None) for e in PRIMARY] for c in cases]
+    alias_cases = cases if tier != "quick" else [c for c in cases if c["na"] in (1, 10, 40)]
+    jobs += [[(e, c, None) for e in ALIASES] for c in alias_cases]
     return jobs
 
 
 def _option_jobs(tier, seed):
     jobs = []
     base = [dict(nf=nf, na=na, mag=mag, cell=cell, seed=seed)
-            for nf, na, mag, cell in ([(1, 3, "1", "ortho"), (2, 10, "99", "triclinic"), (3, 11, "limit", "none")] if tier == "quick" else
+            for nf, na, mag, cell in (itertools.product([1, 2], [1, 10], ["1", "limit"], ["none", "triclinic"]) if tier == "quick" else
                                       itertools.product([1, 2, 3], [1, 3, 10, 40], ["1e-3", "1", "99", "limit"], ["none", "ortho", "triclinic"]))]
     for c in base:
         jobs.append([("gro", c, {"precision": p}) for p in (2, 3, 4, 5, 6)])
     pdb_cases = [dict(nf=nf, na=na, mag="1", cell=cell, seed=seed) for nf, na, cell in
-                 ([(1, 3, "none"), (2, 10, "ortho")] if tier == "quick" else itertools.product([1, 2, 3], [1, 3, 10, 40], ["none", "ortho", "triclinic"]))]
+                 (itertools.product([1, 2], [1, 10], ["none", "ortho"]) if tier == "quick" else itertools.product([1, 2, 3], [1, 3, 10, 40], ["none", "ortho", "triclinic"]))]
     for c in pdb_cases:
         job = []
         for ter, header, b, nch in itertools.product([True, False], [True, False], [None, "1d", "2d"], [1, 2]):
@@ -543,7 +531,7 @@ def _random_jobs(seed, n):
     rng = np.random.RandomState(seed + 12345)
     jobs = []
     for i in range(n):
-        c = dict(nf=int(rng.randint(1, 7)), na=int(rng.randint(1, 61)), mag=["1e-3", "1", "99", "limit", "7.3", "0.04", "450"][int(rng.randint(0, 7))],
+        c = dict(nf=int(rng.randint(1, 7)), na=int(rng.randint(1, 61)), mag=["1e-3", "1", "99", "limit", "7.3", "0.04", "31"][int(rng.randint(0, 7))],
                  cell=["none", "ortho", "triclinic", "varying", "varying-tri"][int(rng.randint(0, 5))], seed=int(rng.randint(0, 10 ** 6)))
         jobs.append([(e, c, None) for e in EXTS])
     return jobs
@@ -554,8 +542,9 @@ def _mk_checks(tier):
     a = ObsCheck("roundtrip", "Trajectory.save (all savers) -> md.load / load_restrt / load_ncrestrt",
                  bound=("extensions=%s; frames in {1,2,3} x atoms in {1,3,9,10,11,40} x magnitude in {1e-3,1,99,format field limit-eps} nm "
                         "(negative coordinates always present) x cell in {none, orthorhombic, triclinic, per-frame varying}; non-uniform float32 times; "
-                        "%s") % (EXTS, "quick: each (frames,atoms,cell) with one magnitude (cycled) + all magnitudes at 2 frames x atoms {1,10} x cell {none,ortho}; aliases on atoms {1,10}, frames {1,2}"
-                                 if tier == "quick" else "thorough: full product + 60 seeded random trajectories (1-6 frames, 1-60 atoms)"),
+                        "%s") % (EXTS, "full product (360 trajectories + 4 with per-frame varying triclinic cells) for the 13 formats; alias extensions (netcdf, ncdf, crd, xyz.gz, pdb.gz) on atoms {1,10,40}; "
+                                 "options: gro precision 2..6 on 16 trajectories, pdb ter x header x bfactors{none,1-D,2-D} x chains{1,2} on 8 trajectories"
+                                 if tier == "quick" else "full product for all 18 extensions; options on the full sub-grid; + 400 seeded random trajectories (1-6 frames, 1-60 atoms, 7 magnitudes, 5 cell kinds)"),
                  rule="exhaustive over the grid; non-trivial = distinct (format, multi-frame, >9 atoms, magnitude, cell, options); save/load exceptions are observations",
                  stands_in_for="codec contracts of PyTables, netCDF4, xdrfile.c (3dfcoord), dcdplugin.c, dtrplugin and the printf/float axioms of the text codecs",
                  exhaustive=exh)
@@ -594,7 +583,7 @@ def run(tier, seed, hint):
     checks = _mk_checks(tier)
     jobs = _grid(tier, seed) + _option_jobs(tier, seed)
     if tier != "quick":
-        jobs += _random_jobs(seed, 60)
+        jobs += _random_jobs(seed, 400)
     failed_base = set()
     ctx = multiprocessing.get_context("fork")
     with cf.ProcessPoolExecutor(max_workers=min(12, os.cpu_count() or 4), mp_context=ctx) as ex:
